@@ -192,7 +192,13 @@ fn checker_selftest(_ctx: &Ctx, ev: &mut Value) -> Option<Violation> {
     }
     ev["coverage"]["checker_selftest"] = serde_json::json!({"negative_images_checked": checked, "problems": problems});
     if problems.is_empty() {
-        None
+        match crate::props::scenarios::huge_library_file() {
+            Ok(n) => {
+                ev["coverage"]["huge_library_file_steps"] = serde_json::json!(n);
+                None
+            }
+            Err(v) => Some(v),
+        }
     } else {
         Some(Violation { key: "harness|checker_selftest".into(), detail: problems.join("; "), case: Value::Null, trace: vec![] })
     }
